@@ -292,6 +292,7 @@ __strpdt_card(struct strpdt_s *d, const char *sp, struct dt_spec_s s, char **ep)
 			res = -1;
 		} else {
 			sp = tp;
+			d->igvn = 1U;
 		}
 		if (s.spfl == DT_SPFL_N_EPOCHNS) {
 			d->st.ns = d->i % 1000000000LL;
